@@ -71,7 +71,7 @@ CHECKS.update({
  "C04": dict(level="model_checking", ref="DESIGN.md 7 C04",
    text="Demux.tla: Udp::listen / Ipv4::listen and the two-stage demultiplexing of the code, checked by TLC against the endpoint rule (exact binding, else wildcard, never another "
         "port or specific address, second bind refused) for every bind history; real machines (Udp, Ipv4, optional Arp, Pci, three harness applications) exchanging datagrams, every "
-        "bind result, every demux (application, payload, source and destination endpoint from Control) and end-of-run completeness validated by TraceDemux.tla.",
+        "bind result, every demux (application, payload, source and destination endpoint from Control), answers sent back through the session that delivered a datagram, and end-of-run completeness validated by TraceDemux.tla.",
    note=NET_NOTE, technique="TLA+ model checking (TLC) + trace validation of real full-stack UDP executions"),
  "C05": dict(level="model_checking", ref="DESIGN.md 7 C05",
    text="Link.tla: PciSession::send_pci and the steps of Network::send (permit, transmission time, latency, fan-out) with explicit time, all interleavings of concurrent sends "
@@ -89,7 +89,7 @@ CHECKS.update({
  "C13": dict(level="model_checking", ref="DESIGN.md 7 C13",
    text="Lifecycle.tla: protocols as init/arrive/release/post processes behind a barrier, shutdown requests through the bounded broadcast channel (first request wins), the timeout "
         "task and the outer T+1 timeout, all interleavings (barrier, returned status = first request, bound, no hang); real run_internet_with_timeout runs mixing scripted "
-        "applications (slow, early/late/concurrent/bursting requests, hanging) with built-in protocols and applications, including empty machine sets, under virtual time, validated by TraceLifecycle.tla.",
+        "applications (slow, early/late/concurrent/bursting requests, hanging) with built-in protocols and applications, including empty machine sets, and run_internet runs without a timeout, under virtual time, validated by TraceLifecycle.tla.",
    note=NET_NOTE + " Known finding K6 (Forward opens its session before the barrier) is reported as KNOWN-FINDING.",
    technique="TLA+ model checking (TLC) + trace validation of real simulation runs under virtual time"),
 })
@@ -111,7 +111,7 @@ CHECKS.update({
    text="SockPipe.tla: the socket -> TcpSession -> TCB (abstract ordered pipe, C01) -> SocketSession -> Socket::recv pipeline with re-chunking, accept backlog and the stored remainder, "
         "all interleavings (stream = concatenation of writes in order, recv(n) <= n, nothing dropped, complete); the as-found variants (task per write, recv budget, queue overflow) are "
         "refuted by TLC and were reproduced on the code (F2, F3 repaired; K1 recorded). Real socket applications over the complete stack with jitter / bounded loss / duplicates on the "
-        "current_thread runtime (virtual time) and on multi_thread runtimes with 2-16 workers, byte-budget and whole-message reads mixed on one socket, writes before accept, every read validated by TraceSock.tla.",
+        "current_thread runtime (virtual time) and on multi_thread runtimes with 2-16 workers, byte-budget and whole-message reads mixed on one socket, writes before accept, servers that speak first on the accepted connection, every read on either side validated by TraceSock.tla.",
    note=NET_NOTE + " Known finding K1 (255-slot socket queue drops stream bytes) is reported as KNOWN-FINDING.",
    technique="TLA+ model checking (TLC) + trace validation of real socket executions on both runtime flavours"),
 })
